@@ -322,7 +322,7 @@ pub fn run(run: &Run) {
     let thorough = run.thorough();
     let calls = AtomicU64::new(0);
     let seeds: Vec<u64> = if thorough { (0..2).map(|i| run.seed + 11 * i).collect() } else { vec![run.seed] };
-    let trailing: Vec<usize> = if thorough { vec![0, 37] } else { vec![37] };
+    let trailing: Vec<usize> = if thorough { vec![0, 37, 1700] } else { vec![37, 1700] };
     let mut cases: Vec<StreamCase> = Vec::new();
     for &seed in seeds.iter() {
         let (cstream, sstream) = library_streams(seed * 2 + 1, seed * 2 + 2);
